@@ -3,7 +3,7 @@
 //! clone of the world and the real `bisync` is run.
 
 use super::bisync_common::*;
-use super::c02::{exec_history, run_cfg};
+use super::c02::{exec_history, exec_history_named, run_cfg};
 use crate::common::*;
 use crate::framework::*;
 use crate::gen::fnv;
@@ -93,6 +93,67 @@ fn variants(orig: &[u8], foreign: &[u8], all_trunc: bool, seed: u64) -> Vec<(Str
     v
 }
 
+const LINK_A: &str = "/sim/current";
+const ROOT_A2: &str = "/sim/A2";
+
+impl C07 {
+    fn symlink_variant(&self, sc: &Sc, rep: &mut RunReport) {
+        let h = &sc.hist;
+        let mut w0 = new_world();
+        let t = w0.clock_ns;
+        if w0.host(HOST).symlink("/", ROOT_A, LINK_A, t).is_err() {
+            return;
+        }
+        let Ok(hr) = exec_history_named(h, sc.cfg_seed, false, 0, LINK_A, w0, |_, _, _, _| Ok(())) else { return };
+        rep.execs += hr.runs.len() as u64;
+        let mut w = hr.final_world;
+        // (whatever key the program filed it under)
+        if tree_bytes(&w, HOST, &format!("{HOME}/.copia/archive")).is_empty() {
+            return; // no completed run through the link
+        }
+        // another directory: a subset of A's files, one of them changed
+        let a_now = strip_staging(&tree_bytes(&w, HOST, ROOT_A));
+        let t = w.clock_ns;
+        w.host(HOST).mkdir_p(ROOT_A2, t);
+        for (i, (p, c)) in a_now.iter().enumerate() {
+            match i % 3 {
+                0 => {}                                                        // missing in A2
+                1 => w.host(HOST).put_file(&format!("{ROOT_A2}/{p}"), b"<other release>", t),
+                _ => w.host(HOST).put_file(&format!("{ROOT_A2}/{p}"), c, t),
+            }
+        }
+        let _ = w.host(HOST).unlink("/", LINK_A, t);
+        if w.host(HOST).symlink("/", ROOT_A2, LINK_A, t).is_err() {
+            return;
+        }
+        let a0 = strip_staging(&tree_bytes(&w, HOST, ROOT_A2));
+        let b0 = strip_staging(&tree_bytes(&w, HOST, ROOT_B));
+        let out = run_bisync(w, run_cfg(sc.cfg_seed ^ 0x51), LINK_A, ROOT_B, &[], h.hostname_env);
+        rep.execs += 1;
+        rep.fault("archive_foreign_via_repointed_symlink", 1);
+        let k = classify(&out);
+        let ctx = |m: String| format!("archive fault 'root symlink re-pointed to another directory': {m}");
+        if k == RunKind::Crashed {
+            rep.fail("c07.no_crash", "bisync-panicked-on-damaged-archive", ctx(format!("{:?}", out.procs[0].exit)));
+            return;
+        }
+        if !out.procs[0].err_str().contains("SAFE no-base mode") {
+            rep.fail("c07.safe_mode", "foreign-pair-archive-trusted", ctx("no `SAFE no-base mode` banner: the archive of the OLD pair of directories was trusted".into()));
+            return;
+        }
+        let unl = unlinks_in_roots(&out.trace, &[ROOT_A2, ROOT_B]);
+        if !unl.is_empty() {
+            rep.fail("c07.no_unlink", "delete-without-trusted-archive", ctx(format!("unlinked {:?}", &unl[..unl.len().min(3)])));
+            return;
+        }
+        let a1 = strip_staging(&tree_bytes(&out.world, HOST, ROOT_A2));
+        let b1 = strip_staging(&tree_bytes(&out.world, HOST, ROOT_B));
+        if let Some((_c, d)) = lost_version(&a0, &b0, &a1, &b1, &Tree::new(), k) {
+            rep.fail("c07.versions_kept", "version-lost-with-damaged-archive", ctx(d));
+        }
+    }
+}
+
 impl Check for C07 {
     type Sc = Sc;
     fn id(&self) -> &'static str {
@@ -146,6 +207,16 @@ impl Check for C07 {
     fn execute(&self, sc: &Sc) -> RunReport {
         let mut rep = RunReport::default();
         let h = &sc.hist;
+        if sc.cfg_seed % 5 == 0 && sc.only.is_none() {
+            // "belongs to a different pair of directories" without touching the archive file:
+            // the first root is named through a symlink that is re-pointed to another directory
+            // between the runs (a `current -> release-N` rotation). The archive recorded for the
+            // old pair must not be trusted for the new one.
+            self.symlink_variant(sc, &mut rep);
+            if rep.violation.is_some() {
+                return rep;
+            }
+        }
         let hr = match exec_history(h, sc.cfg_seed, false, 0, |_, _, _, _| Ok(())) {
             Ok(x) => x,
             Err((o, c, d)) => {
